@@ -515,6 +515,78 @@ theorem tie_condUsers (n tw w : Int) :
 
 end Conditions
 
+/-! ### round 5: the users' constructors and entry points -/
+
+/-- **`TotalWeights` as arithmetic**: the loop body translated from the source (negative weight counts as 0, then
+`weights += …`), wrapped to a Go `int`, is the model's `totalWeightsStep`, for all arguments -/
+theorem tie_totalWeightsStep (acc w : Int) :
+    wrapInt (GoZero.Extracted.C15.totalWeightsStep acc w) = GoZero.C15.totalWeightsStep acc w := by
+  unfold GoZero.Extracted.C15.totalWeightsStep GoZero.C15.totalWeightsStep
+  by_cases h : w < 0 <;> simp [h]
+
+/-- … started at 0, applied to every entry in order, and returned (model: `totalWeights`, a `foldl`) -/
+theorem tie_totalWeightsFrame : GoZero.Extracted.C15.totalWeightsFrame = [
+  "var weights int",
+  "range _,node:=c",
+  "return weights"] := rfl
+
+/-- the constructors' refusal is `log.Fatal` (the process ends: model `UserInst.fatal`), cache.New's shortcut returns
+the node built from entry 0 of a ONE-entry configuration -/
+theorem tie_userBranches :
+    GoZero.Extracted.C15.cacheFatalBranch = ["log.Fatal(\"no cache nodes\")"] ∧
+    GoZero.Extracted.C15.kvFatalBranch = ["log.Fatal(\"no cache nodes\")"] ∧
+    GoZero.Extracted.C15.cacheSingleBranch =
+      ["return NewNode(redis.MustNewRedis(c[0].RedisConf), barrier, st, errNotFound, opts...)"] := ⟨rfl, rfl, rfl⟩
+
+/-- **semantic tie of the constructors' decisions**: the lifted conditions of the source, applied to `len(c)` and the
+model's `totalWeights`, decide exactly like the model's `userFatal` / the one-entry match of `cacheNew` -/
+theorem tie_userFatal (conf : List (Node × Int)) :
+    (userFatal conf = true ↔ GoZero.Extracted.C15.condCacheNoNode (conf.length : Nat) (totalWeights conf) = 1) ∧
+    (userFatal conf = true ↔ GoZero.Extracted.C15.condKvNoNode (conf.length : Nat) (totalWeights conf) = 1) ∧
+    ((∃ p, conf = [p]) ↔ GoZero.Extracted.C15.condCacheSingle (conf.length : Nat) = 1) := by
+  have hc := tie_condUsers (conf.length : Nat) (totalWeights conf) 0
+  refine ⟨?_, ?_, ?_⟩
+  · rw [hc.1]; unfold userFatal; simp
+  · rw [hc.2.1]; unfold userFatal; simp
+  · rw [hc.2.2.1]
+    constructor
+    · rintro ⟨p, rfl⟩; rfl
+    · intro h
+      match conf, h with
+      | [p], _ => exact ⟨p, rfl⟩
+      | [], h => simp at h
+      | _ :: _ :: _, h => simp at h; omega
+
+/-- a delegating entry point `X(p₁,…,pₙ)` is `return <recv>.XCtx(context.Background(), p₁,…,pₙ)`: same method, every
+parameter forwarded, in order (a dropped, swapped or replaced argument breaks this) -/
+def wrapperOk (recv : String) (e : String × List String × List String × String × List String) : Bool :=
+  e.2.2.1 == [] || e.2.2.2.1 == "" ||
+    (e.2.2.2.1 == recv ++ "." ++ e.1 ++ "Ctx" && e.2.2.2.2 == "context.Background()" :: e.2.1) ||
+    -- a Ctx method built on another Ctx method of the same receiver (`ZaddCtx` → `ZaddFloatCtx`): the context first,
+    -- the string parameters forwarded unchanged and in order
+    (e.1.toList.reverse.take 3 == ['x', 't', 'C'] && e.2.2.2.1.toList.take 3 == (recv ++ ".").toList &&
+      e.2.2.2.2.head? == some "ctx" &&
+      e.2.2.2.2.filter (e.2.2.1.contains ·) == e.2.2.1)
+
+/-- the key parameter is where the model (`kvKeyIndex`, `multiKey`) looks for it among the string parameters -/
+def keyParamOk (e : String × List String × List String × String × List String) : Bool :=
+  e.2.2.1 == [] ||
+    (if e.2.2.1 == ["keys..."] then multiKey e.1 else e.2.2.1[kvKeyIndex e.1]? == some "key" && !multiKey e.1)
+
+set_option maxRecDepth 100000 in
+/-- **kv: all 130 entry points (and getRedis)** — every non-Ctx method forwards all its parameters to its Ctx variant, and the key the
+model dispatches by is the method's `key` parameter (second string of `Eval`, first of all others; every key of `Del`) -/
+theorem tie_kvEntryPoints :
+    (GoZero.Extracted.C15.kvMethods.all fun e => wrapperOk "cs" e && keyParamOk e) = true ∧
+    GoZero.Extracted.C15.kvMethods.length ≥ 131 := by decide
+
+set_option maxRecDepth 100000 in
+/-- **cache: all entry points** of cacheCluster likewise; their only string parameter is the key (`keys...` for `Del`) -/
+theorem tie_cacheEntryPoints :
+    (GoZero.Extracted.C15.cacheMethods.all fun e => wrapperOk "cc" e && keyParamOk e &&
+      (e.2.2.1 == [] || e.2.2.1 == ["key"] || e.2.2.1 == ["keys..."])) = true ∧
+    GoZero.Extracted.C15.cacheMethods.length = 13 := by decide
+
 /-- the `nodes` set: add / test / delete of the repr (model: `nodes` list, `contains`, `erase`) -/
 theorem tie_nodeSetHelpers :
     GoZero.Extracted.C15.addNodeBody = ["h.nodes[nodeRepr] = lang.Placeholder"] ∧
